@@ -84,29 +84,24 @@ mod proofs {
     }
 
     // @harness id=C09 tier=quick unwind=14 timeout=1200
-    // @desc the polynomial-array wrappers ntt_ps / intt_ps / ntt_lazy_ps / intt_lazy_ps transform EVERY polynomial of the array (pcount = 3: offsets advance per polynomial and per modulus), agreeing with the single-component transform applied at each position
-    // @bounds pcount = 3, two moduli (97, 113), degree 2: all 12-residue arrays; tables = literals of the real NTTTables::new
-    // @funcs polysmallmod::{ntt_ps,intt_ps,ntt_lazy_ps,intt_lazy_ps,ntt_p,intt_p,ntt,intt}
+    // @desc the polynomial-array wrappers ntt_ps / intt_ps transform EVERY polynomial of the array (pcount = 3: the offset advances per polynomial), agreeing with the single-component transform applied at each position, and intt_ps inverts ntt_ps
+    // @bounds pcount = 3, one modulus (97), degree 2: all 6-residue arrays; table = literal of the real NTTTables::new
+    // @funcs polysmallmod::{ntt_ps,intt_ps,ntt_p,intt_p,ntt,intt}
     #[kani::proof]
     fn c09_poly_array_wrappers() {
         use crate::verif_v::lits;
-        let tabs = [lits::ntt_n2_q97(), lits::ntt_n2_q113()];
-        let a: [u8; 12] = kani::any();
-        let mut v = [0u64; 12]; let mut i = 0;
-        while i < 12 { let q = if (i / 2) % 2 == 0 { 97 } else { 113 }; kani::assume((a[i] as u64) < q); v[i] = a[i] as u64; i += 1; }
-        let k: usize = kani::any(); kani::assume(k < 6);          // (polynomial, modulus) component index
+        let tabs = [lits::ntt_n2_q97()];
+        let a: [u8; 6] = kani::any();
+        let mut v = [0u64; 6]; let mut i = 0;
+        while i < 6 { kani::assume(a[i] < 97); v[i] = a[i] as u64; i += 1; }
+        let k: usize = kani::any(); kani::assume(k < 3);          // polynomial index
         let mut single = [v[2 * k], v[2 * k + 1]];
-        tabs[k % 2].ntt_negacyclic_harvey(&mut single);
+        tabs[0].ntt_negacyclic_harvey(&mut single);
         let mut all = v; ntt_ps(&mut all, 3, 2, &tabs);
-        kani::cover!(k >= 4 && single[0] != v[2 * k]);
+        kani::cover!(k == 2 && single[0] != v[4]);
         assert!(all[2 * k] == single[0] && all[2 * k + 1] == single[1]);
-        let mut lazy = v; ntt_lazy_ps(&mut lazy, 3, 2, &tabs);
-        let q = if k % 2 == 0 { 97 } else { 113 };
-        assert!(lazy[2 * k] % q == single[0] && lazy[2 * k + 1] % q == single[1] && lazy[2 * k] < 4 * q);
         let mut back = all; intt_ps(&mut back, 3, 2, &tabs);
         assert!(back[2 * k] == v[2 * k] && back[2 * k + 1] == v[2 * k + 1]);
-        let mut backl = all; intt_lazy_ps(&mut backl, 3, 2, &tabs);
-        assert!(backl[2 * k] % q == v[2 * k] && backl[2 * k] < 2 * q);
     }
 
     #[cfg(test)] include!("/verif/.build/playback/util_polysmallmod_v.rs");
